@@ -295,9 +295,40 @@ func originHandler(w http.ResponseWriter, req *http.Request) {
 	if pad > 0 {
 		w.Header().Set("X-Pad", strings.Repeat("p", pad))
 	}
-	w.WriteHeader(status)
 	body := data[a : b+1]
 	rng := rand.New(rand.NewSource(ws))
+	if req.Close && ws%2 == 0 {
+		// The request asks for the connection to be closed. net/http would
+		// announce that with "Connection: close" in the response; this variant is
+		// the origin that does not announce anything: it sends a plain
+		// Content-Length response and just closes the connection afterwards.
+		if hj, ok := w.(http.Hijacker); ok {
+			conn, brw, err := hj.Hijack()
+			if err != nil {
+				return
+			}
+			defer conn.Close()
+			fmt.Fprintf(brw, "HTTP/1.1 %d %s\r\n", status, http.StatusText(status))
+			w.Header().Set("Date", time.Now().UTC().Format(http.TimeFormat))
+			w.Header().Write(brw)
+			brw.WriteString("\r\n")
+			for len(body) > 0 {
+				sz := 1 + rng.Intn(9000)
+				if sz > len(body) {
+					sz = len(body)
+				}
+				if _, err := brw.Write(body[:sz]); err != nil {
+					return
+				}
+				body = body[sz:]
+				if brw.Flush() != nil {
+					return
+				}
+			}
+			return
+		}
+	}
+	w.WriteHeader(status)
 	fl, _ := w.(http.Flusher)
 	for len(body) > 0 {
 		var sz int
@@ -479,6 +510,7 @@ type obs struct {
 	DiffAt    int64
 	BytesOK   bool
 	MITM      bool
+	Fin       string
 	Stalled   bool // no further byte will arrive: the system is quiescent
 	TSend     time.Time
 	TDone     time.Time
@@ -604,6 +636,12 @@ func judge(r *vh.Run, c interface{}, st *state) {
 		}
 		r.Class(fmt.Sprintf("%s|%s|rs=%s|sz=%s|conc=%d|%s|%s", drv, sh.Kinds(), rangeStartClass(o, sh), sizeBucket(o.L), o.Conc, o.ctx(), outcome))
 		r.Count("responses", 1)
+		if o.Fin != "" {
+			r.Count("responses_to_last_exchange_requests", 1)
+			if sh != nil {
+				r.Count("shaped_responses_to_last_exchange_requests", 1)
+			}
+		}
 		r.Count("body_bytes_compared", o.Delivered)
 		match := "matching"
 		if sh == nil {
@@ -956,6 +994,11 @@ type reqSpec struct {
 	E    int64  `json:"e"` // range end (-1: open)
 	W    int64  `json:"w"`
 	Pad  int    `json:"pad"`
+	// Fin: how the client asks for this to be the last exchange on the
+	// connection: "" (keep-alive), "close" (Connection: close), "http10"
+	// (an HTTP/1.0 request). The proxy then adds "Connection: close" to the
+	// response head and closes after the response.
+	Fin string `json:"fin,omitempty"`
 }
 
 func (q reqSpec) span() (s, l int64, ranged bool) {
@@ -1068,7 +1111,14 @@ func (cc *cconn) do(st *state, q reqSpec, conc int, headSeen func()) (*obs, erro
 		target = strings.TrimPrefix(target, "http://origin.test") // origin-form inside the tunnel
 	}
 	o.MITM = cc.mitm
-	sb.WriteString("GET " + target + " HTTP/1.1\r\nHost: origin.test\r\n")
+	switch q.Fin {
+	case "http10":
+		sb.WriteString("GET " + target + " HTTP/1.0\r\nHost: origin.test\r\n")
+	case "close":
+		sb.WriteString("GET " + target + " HTTP/1.1\r\nHost: origin.test\r\nConnection: close\r\n")
+	default:
+		sb.WriteString("GET " + target + " HTTP/1.1\r\nHost: origin.test\r\n")
+	}
 	if ranged {
 		if q.E < 0 {
 			fmt.Fprintf(&sb, "Range: bytes=%d-\r\n", q.S)
@@ -1202,6 +1252,16 @@ func (cc *cconn) do(st *state, q reqSpec, conc int, headSeen func()) (*obs, erro
 			cc.dead = true
 			break
 		}
+	}
+	if q.Fin != "" {
+		o.Fin = q.Fin
+	}
+	if q.Fin != "" && o.Delivered == l {
+		// the close after this response was asked for by the client: it is not
+		// an action of the shaping, and nothing more is sent on this connection
+		cc.dead = true
+		cc.c.Close()
+		return o, nil
 	}
 	cc.last = o
 	return o, nil
@@ -1354,6 +1414,10 @@ func genScenario(r *vh.Run, sc scenCase) *scenario {
 				}
 				m[id] = append(m[id], genReq(rng, slot, n, offs[slot], uint32(100*(slot+2))))
 			}
+			if rng.Intn(4) == 0 {
+				// the last exchange of this connection is announced as such by the client
+				m[id][len(m[id])-1].Fin = []string{"close", "close", "http10"}[rng.Intn(3)]
+			}
 		}
 		return m
 	}
@@ -1424,50 +1488,63 @@ func genScenario(r *vh.Run, sc scenCase) *scenario {
 // connections because the bucket busy-waits.
 func genThrottleScenario(r *vh.Run, sc scenCase) *scenario {
 	rng := r.Rng(sc.Stream, sc.Idx)
-	n := int64(2000 + rng.Intn(60000))
-	s := &scenario{Profile: "thr", Variant: "throttle", Res: []int64{n, n, n}}
+	// The eight combinations of {throttle starts within the first 2.5 KB of
+	// the resource / later} x {the throttle start is the last action ahead
+	// (open-ended, no halt, no close) / more actions follow} x {range start
+	// inside / before the interval} are cycled over the scenarios of all thr
+	// batches, so that every tier run covers each of them.
+	batchNo := 0
+	if i := strings.LastIndexByte(sc.Stream, '-'); i >= 0 {
+		batchNo, _ = strconv.Atoi(sc.Stream[i+1:])
+	}
+	pat := (sc.Idx*4 + batchNo) % 8
+	early, lastAction, inside := pat&1 != 0, pat&2 != 0, pat&4 != 0
+	n := int64(9000 + rng.Intn(55000))
+	s := &scenario{Profile: "thr", Variant: fmt.Sprintf("throttle:early=%v:last=%v:inside=%v", early, lastAction, inside), Res: []int64{n, n, n}}
 	slot := rng.Intn(3)
-	a := rng.Int63n(n / 2)
+	a := 2600 + rng.Int63n(n/2-2600)
+	if early {
+		a = rng.Int63n(2500)
+	}
 	b := a + n/4 + rng.Int63n(n/4)
 	windows := int64(3 + rng.Intn(3))
 	if r.Thorough() && rng.Intn(3) == 0 {
 		windows = int64(5 + rng.Intn(3))
 	}
-	bw := (b - a) / windows
-	if bw < 1 {
-		bw = 1
-	}
 	sh := shapex.Shape{Slot: slot, Regex: shapex.RegexFor(rng, slot)}
-	t := shapex.Throttle{Start: a, End: b, BW: bw}
-	if rng.Intn(3) == 0 {
+	t := shapex.Throttle{Start: a, End: b}
+	open := lastAction || rng.Intn(3) == 0
+	if open {
 		t.End = -1
-		bw = (n - a) / windows
-		if bw < 1 {
-			bw = 1
-		}
-		t.BW = bw
+		t.BW = (n - a) / windows
+	} else {
+		t.BW = (b - a) / windows
+	}
+	if t.BW < 1 {
+		t.BW = 1
 	}
 	sh.Throttles = []shapex.Throttle{t}
-	if rng.Intn(2) == 0 { // a second, loose interval before it
-		if a > 10 {
+	if !lastAction || !early {
+		if rng.Intn(2) == 0 && a > 10 { // a second, loose interval before it
 			sh.Throttles = append(sh.Throttles, shapex.Throttle{Start: 0, End: a - rng.Int63n(a/2+1), BW: 64 << 20})
 		}
 	}
-	if rng.Intn(2) == 0 {
-		sh.Halts = []shapex.Halt{{Byte: a + rng.Int63n(b-a), DurMs: int64(50 + rng.Intn(200)), Count: -1}}
-	}
-	if rng.Intn(3) == 0 {
-		sh.Closes = []shapex.Close{{Byte: b + rng.Int63n(n-b+1), Count: -1}}
+	if !lastAction {
+		if rng.Intn(2) == 0 {
+			sh.Halts = []shapex.Halt{{Byte: a + rng.Int63n(b-a), DurMs: int64(50 + rng.Intn(200)), Count: -1}}
+		}
+		if rng.Intn(3) == 0 {
+			sh.Closes = []shapex.Close{{Byte: b + rng.Int63n(n-b+1), Count: -1}}
+		}
 	}
 	cfg := &shapex.Config{Class: "valid", Shapes: []shapex.Shape{sh}}
 	conc := 1 + rng.Intn(2)
 	reqs := map[int][]reqSpec{}
 	for i := 0; i < conc; i++ {
 		q := reqSpec{Slot: slot, ID: 300 + uint32(i), N: n, S: -1, E: -1, W: rng.Int63n(1 << 40)}
-		switch rng.Intn(3) {
-		case 0: // range start inside the throttled interval (at most ~1/3 in)
+		if inside { // range start inside the throttled interval (at most ~1/3 in)
 			q.S = a + rng.Int63n((b-a)/3+1)
-		case 1:
+		} else if rng.Intn(2) == 0 {
 			q.S = rng.Int63n(a + 1)
 		}
 		reqs[i] = []reqSpec{q}
